@@ -14,15 +14,17 @@ The model follows the code of `/repo/reactive_stores` **as it is**, defects incl
 * `rootWriteNotify`              — `Write::try_write` of `Store`/`ArcStore` (lib.rs): the inner
                                    `WriteGuard(children[])` from `ArcStore::writer` is dropped first,
                                    then `Store::notify` = `this[]`, `children[]`.
-* `trackLoop`, `subfieldTrack`   — `Subfield::track_field` (subfield.rs).
-* `defaultTrack`                 — the default `StoreField::track_field` (store_field.rs), used by
-                                   the root store, `AtIndex` (iter.rs) and `AtKeyed` (keyed.rs).
-* `keyedFieldTrack`              — `KeyedSubfield::track_field` (keyed.rs): `this` of the *parent only*.
+* `trackLoop`, `subfieldTrack`   — `Subfield::track_field` (subfield.rs) and, since fix-c16-3, the default
+                                   `StoreField::track_field` (store_field.rs: root store, `AtIndex`, `AtKeyed`) and
+                                   `KeyedSubfield::track_field` (keyed.rs): `this` of every ancestor, then this+children.
+* `defaultTrackOld`, `keyedFieldTrackOld` — what the default / `KeyedSubfield::track_field` did before fix-c16-3
+                                   (nothing above the own path / `this` of the direct parent only).
 * `notifySet`, `trackSet`        — what a write through / a reader of a plain field path (root store
                                    or a chain of `Subfield`s, which is also what `OptionStoreExt::unwrap`
                                    produces) notifies / tracks.
-* `FieldKeys`, `.new`, `.nextKey`, `.update` — `FieldKeys::{new, next_key, update}` (lib.rs), verbatim,
-                                   `current_key` left at 0 by `new` included (F-C16-1).  The `FxHashMap`s are
+* `FieldKeys`, `.new`, `.nextKey`, `.update` — `FieldKeys::{new, next_key, update}` (lib.rs), verbatim; since
+                                   fix-c16-1 `new` starts `current_key` at the number of initial keys
+                                   (`FieldKeys.newOld`: the old code, `current_key = 0`, F-C16-1).  The `FxHashMap`s are
                                    association lists; their iteration order is the list order (the theorems
                                    quantify over every order, see Theorems/C16.lean).  `spare` has its top of
                                    stack (`Vec::pop`) at the head.
@@ -31,7 +33,8 @@ The model follows the code of `/repo/reactive_stores` **as it is**, defects incl
 * `Walk`, `stepAcc`              — the notification lists of `StoreField::writer` per accessor: `tr` = what the
                                    guard notifies when dropped, `un` = what it still notifies after
                                    `untrack()` was called on it (`Subfield::writer` / `KeyedSubfield::writer` /
-                                   `AtKeyed::writer` untrack their parent, `AtIndex::writer` does **not**).
+                                   `AtKeyed::writer` and, since fix-c16-2, `AtIndex::writer` untrack their parent;
+                                   `stepAccOld`, `walkOld`: `AtIndex::writer` before the fix, F-C16-2).
 * `Val`, `Val.get`, `Val.set`    — the store's value as a tree (struct / Option / Vec / keyed Vec / leaf).
 * `patchVal`                     — `PatchField::patch_field` (patch.rs: primitives, `Option`, `Vec`; the
                                    `#[derive(Patch)]` struct impl of reactive_stores_macro): children are
@@ -80,11 +83,11 @@ def trackLoop : List Nat → List Trig
 /-- `Subfield::track_field` -/
 def subfieldTrack (q : Path) : List Trig := trackLoop q.reverse ++ [T q, C q]
 
-/-- default `StoreField::track_field` (root store, `AtIndex`, `AtKeyed`) -/
-def defaultTrack (q : Path) : List Trig := [T q, C q]
+/-- the default `StoreField::track_field` (root store, `AtIndex`, `AtKeyed`) **before fix-c16-3** -/
+def defaultTrackOld (q : Path) : List Trig := [T q, C q]
 
-/-- `KeyedSubfield::track_field`; `parent` is `self.inner.path()` -/
-def keyedFieldTrack (parent q : Path) : List Trig := [T parent, T q, C q]
+/-- `KeyedSubfield::track_field` **before fix-c16-3**; `parent` is `self.inner.path()` -/
+def keyedFieldTrackOld (parent q : Path) : List Trig := [T parent, T q, C q]
 
 /-- what a write through the plain field at path `p` notifies, in order -/
 def notifySet (p : Path) : List Trig :=
@@ -92,11 +95,8 @@ def notifySet (p : Path) : List Trig :=
   | [] => rootWriteNotify
   | _ :: _ => triggersForPath p
 
-/-- what a reader of the plain field at path `q` tracks, in order -/
-def trackSet (q : Path) : List Trig :=
-  match q with
-  | [] => defaultTrack []
-  | _ :: _ => subfieldTrack q
+/-- what a reader of the field at path `q` tracks, in order (every accessor kind, the root store included) -/
+def trackSet (q : Path) : List Trig := subfieldTrack q
 
 /-! ## `FieldKeys` -/
 
@@ -119,8 +119,12 @@ def newGo : List Nat → Nat → List KeyEntry → List KeyEntry
   | [], _, acc => acc
   | k :: ks, i, acc => newGo ks (i + 1) (kvInsert acc k i i)
 
-/-- `FieldKeys::new(from_keys)`: segment = index, **`current_key` stays 0** -/
+/-- `FieldKeys::new(from_keys)`: segment = index, `current_key` = number of initial keys (fix-c16-1) -/
 def FieldKeys.new (ks : List Nat) : FieldKeys :=
+  { spare := [], current := ks.length, keys := newGo ks 0 [] }
+
+/-- `FieldKeys::new` before fix-c16-1: **`current_key` stayed 0** -/
+def FieldKeys.newOld (ks : List Nat) : FieldKeys :=
   { spare := [], current := 0, keys := newGo ks 0 [] }
 
 def FieldKeys.get (fk : FieldKeys) (k : Nat) : Option (Nat × Nat) :=
@@ -341,7 +345,9 @@ def childExists (v : Val) (vpos : Option Path) (i : Nat) : Bool :=
     | none => false
   | none => true
 
-def stepAcc (sw : St × Walk) (a : Acc) : St × Walk :=
+/-- one accessor; `old = true`: `AtIndex::writer` as it was before fix-c16-2 (parent writer left tracked,
+only `children` of the own path added) -/
+def stepAccG (old : Bool) (sw : St × Walk) (a : Acc) : St × Walk :=
   let st := sw.1
   let w := sw.2
   match a with
@@ -353,7 +359,8 @@ def stepAcc (sw : St × Walk) (a : Acc) : St × Walk :=
   | .idx i =>
     let tp := w.tpath ++ [i]
     (st, { w with tpath := tp, parent := w.tpath, vpos := w.vpos.map (· ++ [i]),
-                  tr := w.tr ++ [C tp], un := w.tr,
+                  tr := if old then w.tr ++ [C tp] else w.un ++ triggersForPath tp,
+                  un := if old then w.tr else w.un,
                   absent := w.absent || (!w.oob && !childExists st.val w.vpos i), last := some a })
   | .key k =>
     let r := withFieldKeys st w.tpath w.vpos
@@ -367,16 +374,24 @@ def stepAcc (sw : St × Walk) (a : Acc) : St × Walk :=
       (r.1, { w with parent := w.tpath, vpos := none,
                      tr := w.un ++ triggersForPath w.tpath, un := w.un, last := some a })
 
-def walk (st : St) (c : Chain) : St × Walk := c.foldl stepAcc (st, Walk.root)
+def stepAcc : St × Walk → Acc → St × Walk := stepAccG false
+def stepAccOld : St × Walk → Acc → St × Walk := stepAccG true
 
-/-- what `track()` of the accessor at the end of the chain tracks, in order -/
-def Walk.trackList (w : Walk) : List Trig :=
+def walk (st : St) (c : Chain) : St × Walk := c.foldl stepAcc (st, Walk.root)
+def walkOld (st : St) (c : Chain) : St × Walk := c.foldl stepAccOld (st, Walk.root)
+
+/-- what `track()` of the accessor at the end of the chain tracks, in order: since fix-c16-3 every
+accessor kind tracks `this` of all ancestors, then `this` and `children` of its own path -/
+def Walk.trackList (w : Walk) : List Trig := subfieldTrack w.tpath
+
+/-- … before fix-c16-3 -/
+def Walk.trackListOld (w : Walk) : List Trig :=
   match w.last with
-  | none => defaultTrack []
+  | none => defaultTrackOld []
   | some (.fld _) => subfieldTrack w.tpath
-  | some (.kfld _) => keyedFieldTrack w.parent w.tpath
-  | some (.idx _) => defaultTrack w.tpath
-  | some (.key _) => defaultTrack w.tpath
+  | some (.kfld _) => keyedFieldTrackOld w.parent w.tpath
+  | some (.idx _) => defaultTrackOld w.tpath
+  | some (.key _) => defaultTrackOld w.tpath
 
 /-- what the reader closure of the harness logs after tracking -/
 def Walk.read (w : Walk) (v : Val) : Seen :=
